@@ -136,6 +136,10 @@ class Calls(SpecRT, Strings, Loops, AnyVals, AbsSeqs):
         if kind.startswith('opt:'):
             n = z3.Select(st.heap[(cname, field + '?')], ref.t)
             return SOpt(n, self.wrap(kind[4:], t))
+        if kind == 'ref:dict':
+            # heap closure: a dictionary reached through a field exists (its id is below the allocation frontier),
+            # so it is never the same object as one created later
+            st.assume(z3.And(t >= 1, t < st.alloc))
         return self.wrap(kind, t)
 
     def write_field(self, st, ref, field, v, kind=None):
@@ -768,7 +772,26 @@ class Calls(SpecRT, Strings, Loops, AnyVals, AbsSeqs):
         raise Unsupported('membership in %r' % (coll,))
 
     def set_binop(self, on, a, b, st, fr):
-        raise Unsupported('set operation %s' % on)
+        "| - & on sets of Any values (abstract key sets and small literal sets); the result is a new set"
+        from .l2 import mk_abs
+
+        def memf(x):
+            if isinstance(x, SAbs) and x.ek == 'any' and not hasattr(x, 'pair_of'):
+                return x.mem
+            if isinstance(x, SSet):
+                ts = [self.to_any(i).t for i in x.items]
+                return lambda t: z3.Or(*[t == u for u in ts]) if ts else z3.BoolVal(False)
+            raise Unsupported('set operation %s on %r' % (on, x))
+        ma, mb = memf(a), memf(b)
+        if on == 'BitOr':
+            mem = lambda t: z3.Or(ma(t), mb(t))         # noqa
+        elif on == 'BitAnd':
+            mem = lambda t: z3.And(ma(t), mb(t))        # noqa
+        else:
+            mem = lambda t: z3.And(ma(t), z3.Not(mb(t)))    # noqa
+        n = fresh_int('nset')
+        st.assume(n >= 0)
+        return self.ex.ok(mk_abs(self, st, 'any', mem, n, base='set', distinct=True, register=False), st)
 
     def int_pow(self, a, b, st):
         ex = self.ex
